@@ -26,7 +26,7 @@ def tier(ctx):
                     mods=["none", "tensor", "pert", "shear"], nvar=2, nk=2, nmask=0, exhnb=0)
     return dict(sizes=[(1,), (2,), (3,), (1, 1), (2, 1), (2, 2), (3, 1), (3, 2), (3, 3), (1, 1, 1), (2, 1, 1), (2, 2, 1),
                        (2, 2, 2), (3, 2, 2)],
-                mods=["none", "tensor", "pert", "shear"], nvar=4, nk=4, nmask=0, exhnb=0)
+                mods=["none", "tensor", "pert", "shear"], nvar=4, nk=4, nmask=0, exhnb=0, nti=3)
 
 
 def execute(ctx, cfgs, tag):
